@@ -43,6 +43,13 @@ class Mgr(S.Suite):
     def compare_line(self, line, model):
         return cmp.compare_line(line, model)
 
+    def extra_workers(self, prop, tier):
+        if prop == "C01":
+            # definitions over the full expression language (builtins, calls, computed keys), perturbed through the
+            # manager: the model's expression language has none of these, so this part is oracle-only
+            return [("w_expr.py", "c05", 1500 if tier == "quick" else 30000, ["--fixed"])]
+        return []
+
     def nontrivial(self, stats, prop):
         return int(stats.get("dataops", 0))
 
